@@ -259,8 +259,9 @@ STUBS = [
     "conditions (log x: x>0, sqrt x: x>=0) recorded as obligations",
     "resolution.int -> bounded concretisation of int(np.ceil(y)) over -1..%d (beyond: path cut)" % MAXEXT,
     "axioms instantiated on occurring arguments: log, log10, pow10, sqrt strictly increasing; "
-    "pow10>0; pow10(log10 x)=x; sqrt>=0, sqrt(x)^2=x; erf strictly increasing (cross-multiplied "
-    "for equal denominators), odd, |erf|<1",
+    "pow10>0; pow10(log10 x)=x; sqrt>=0, sqrt(x)^2=x; erf strictly increasing for arguments over the same "
+    "denominator (cross-multiplied), |erf|<1; at solving time every remaining application is replaced by a "
+    "real constant (same term, same constant), so that the query is polynomial arithmetic (nlsat)",
 ]
 
 
@@ -392,6 +393,18 @@ class Rel:
                     "le": a <= b, "lt": a < b}[self.kind]
         if self.when is not None:
             return z3.Implies(symx._lb(self.when), core)
+        return core
+
+    def z3_robust_violation(self, delta):
+        """The relation fails by a margin *delta* (z3 real term > 0); None when
+        the relation is not an arithmetic comparison."""
+        if self.kind == "true":
+            return None
+        a, b = term(self.a), term(self.b)
+        core = {"eq": z3.Or(a - b >= delta, b - a >= delta), "ge": b - a >= delta,
+                "gt": b - a >= delta, "le": a - b >= delta, "lt": a - b >= delta}[self.kind]
+        if self.when is not None:
+            return z3.And(symx._lb(self.when), core)
         return core
 
     def violated(self, tol=1e-9):
@@ -581,11 +594,30 @@ class RUnit(_Unit):
         return _Unit.solve(self, constraints, int(total / 2))
 
 
+def ties_free(pc, delta):
+    """No comparison on the path is decided by less than *delta*: witnesses
+    taken under this constraint do not sit on a boundary where exact real
+    arithmetic and double rounding could disagree."""
+    out = []
+    for c in pc:
+        while z3.is_not(c):
+            c = c.arg(0)
+        if z3.is_app(c) and c.num_args() == 2 and c.decl().kind() in (
+                z3.Z3_OP_LE, z3.Z3_OP_LT, z3.Z3_OP_GE, z3.Z3_OP_GT):
+            a, b = c.arg(0), c.arg(1)
+            if z3.is_int(a):
+                continue
+            out.append(z3.Or(a - b >= delta, b - a >= delta))
+    return out
+
+
 class PathProver:
     """All obligations of one path: the hypotheses are abstracted once."""
 
-    def __init__(self, u, hyps, always=0):
+    def __init__(self, u, hyps, always=0, pc=(), delta=None):
         self.u = u
+        self.pc = list(pc)          # path condition, for robust witnesses
+        self.delta = delta          # margin (z3 term) for robust witnesses
         self.ab = Abstraction()
         self.hyps = []
         self.axioms = []
@@ -626,7 +658,10 @@ class PathProver:
             rest = nxt
         return keep
 
-    def prove(self, name, rels, on_cex, mandatory=True, sample=False, blockers=None):
+    def prove(self, name, rels, on_cex, mandatory=True, sample=False, blockers=None, slice=False):
+        """*slice*: keep only the hypotheses in the cone of influence of the
+        obligation (only for obligations whose known-finding blocks live in
+        that cone too: a block on a dropped component would go unnoticed)."""
         phi = rels if z3.is_expr(rels) else conj(rels)
         ax_new = self.ab.extend([phi])
         if ax_new:
@@ -634,17 +669,56 @@ class PathProver:
         phi2 = self.ab.apply(phi)
         if not hasattr(self, "_symcache"):
             self._symcache = {}
-        pool = self.relevant(phi2, list(self.hyps[self.always:]) + list(self.axioms))
-        hset = {h.get_id() for h in self.hyps}
-        hyps = list(self.hyps[:self.always]) + [h for h in pool if h.get_id() in hset]
-        axioms = [h for h in pool if h.get_id() not in hset]
+        if slice:
+            pool = self.relevant(phi2, list(self.hyps[self.always:]) + list(self.axioms))
+            hset = {h.get_id() for h in self.hyps}
+            hyps = list(self.hyps[:self.always]) + [h for h in pool if h.get_id() in hset]
+            axioms = [h for h in pool if h.get_id() not in hset]
+        else:
+            hyps, axioms = list(self.hyps), list(self.axioms)
         self.u.pure = not self.ab.other_uf
         self.u.prefer_nlsat = bool(self.ab.sqrt)
+        handler = on_cex
+        if on_cex is not None and self.delta is not None:
+            handler = self._robust(on_cex, rels, phi2, hyps, axioms)
         try:
-            return self.u.prove(name, phi2, hyps, on_cex, axioms=axioms,
+            return self.u.prove(name, phi2, hyps, handler, axioms=axioms,
                                 mandatory=mandatory, sample=sample, blockers=blockers)
         finally:
             self.u.pure = False
+
+    def _robust(self, on_cex, rels, phi2, hyps, axioms):
+        """Counterexample handler that, when the solver's witness does not
+        reproduce on the real code (a tie that exact reals and doubles decide
+        differently), asks once more for a witness that violates the relation
+        by a margin and decides every comparison of the path by a margin."""
+        seen_blocks = []
+
+        def wrapped(m):
+            info = on_cex(m)
+            if info.get("reproduced"):
+                if info.get("block") is not None:
+                    seen_blocks.append(info["block"])
+                return info
+            extra = [self.ab.apply(c) for c in ties_free(self.pc, self.delta)]
+            if not z3.is_expr(rels):
+                viol = [r.z3_robust_violation(self.delta) for r in rels]
+                viol = [self.ab.apply(x) for x in viol if x is not None]
+                if viol:
+                    extra.append(z3.Or(*viol))
+            cons = list(hyps) + list(axioms) + [z3.Not(phi2)] + extra + \
+                [z3.Not(self.ab.apply(b)) for b in seen_blocks]
+            r, m2, _s = self.u.solve(cons, 20000)
+            self.u.r["solver_checks"] -= 1
+            if r != "sat":
+                return info
+            info2 = on_cex(m2)
+            if info2.get("reproduced"):
+                if info2.get("block") is not None:
+                    seen_blocks.append(info2["block"])
+                return info2
+            return info
+        return wrapped
 
 
 # --------------------------------------------------------------------------
@@ -700,9 +774,11 @@ def floats(a, env):
 # installed, sym=True) and with floats on the real code (sym=False, replay and
 # translator validation).
 
-CUT = R.MINIMUM_ABSOLUTE_Q          # 0.02, relative to min(q)
-MINRES = R.MINIMUM_RESOLUTION       # 1e-8
-NLOW, NHIGH = R.PINHOLE_N_SIGMA     # 2.5, 3.0 (documented window)
+# documented constants (written here from the comments/docstrings of
+# resolution.py, NOT read from the module: a changed constant must show up)
+CUT = 0.02              # "Limit the smallest q value evaluated (in absolute) to 0.02*min"
+MINRES = 1e-8           # minimum resolution substituted for a zero pinhole width
+NLOW, NHIGH = 2.5, 3.0  # "Limit q range to (-2.5,+3) sigma"
 
 
 def _arr(prefix, n):
